@@ -58,6 +58,10 @@ CONSTANTS
     MaxReaps,       \* total number of reaper sweeps
     ResumeScripts,  \* handler scripts of resume requests (names, see ScriptOps)
     OpenScripts,    \* handler scripts of token-less requests
+    Routes,         \* HTTP routes a session-bearing request may take: "unary" (POST /m), "pinit" (producer
+                    \* POST /m/init: the init handler AND the first Produce tick run in this request),
+                    \* "pcont" (producer continuation POST /m/exchange: a Produce tick), "xturn" (exchange
+                    \* turn POST /m/exchange: an Exchange call)
     Toks,           \* token classes a client presents: "own" (as issued), "bad" (altered)
     Lags,           \* staleness of the reaper's tick time: drainExpired(now - lag)
     AadBinds,       \* TRUE = the code: the token's AEAD AAD binds it to the caller identity
@@ -92,7 +96,7 @@ VARIABLES
 
 vars == <<reg, sinfo, closed, lock, pending, draining, down, now, pc, rq, op, cnt, hist>>
 
-NoReq == [kind |-> "-", s |-> 0, prin |-> "-", w |-> "-", tok |-> "-", ops |-> <<>>, ttl |-> 0,
+NoReq == [kind |-> "-", route |-> "-", s |-> 0, prin |-> "-", w |-> "-", tok |-> "-", ops |-> <<>>, ttl |-> 0,
           accept |-> FALSE,
           cur |-> 0,          \* sid local to OpenSession between registry.open and seal
           ent |-> 0,          \* entry returned by registry.get
@@ -114,6 +118,15 @@ ScriptOps(n) ==
       [] n = "open_panic"  -> <<"open", "panic">>
       [] n = "open_close"  -> <<"open", "close">>
       [] n = "open_open"   -> <<"open", "open">>
+
+\* user code of a session-bearing request, by route.  "tick" is one Produce / Exchange call; on
+\* /init it follows the init handler inside the same request — the session lock taken by
+\* installStickyOnRequest must cover both, it is released only by the deferred ReleaseLock.
+RouteOps(route, n) ==
+    CASE route = "unary" -> ScriptOps(n)
+      [] route = "pinit" -> ScriptOps(n) \o <<"tick">>
+      [] OTHER           -> <<"tick">>
+RouteOK(route, n) == route \in {"unary", "pinit"} \/ n = "noop"
 
 NoEntry == [in |-> FALSE, exp |-> 0, prin |-> "-"]
 NoInfo  == [used |-> FALSE, home |-> "-", owner |-> "-", pub |-> FALSE]
@@ -165,7 +178,8 @@ SigArgs(args) ==
     CASE "tok" \in DOMAIN args ->
             << args.prin = sinfo[args.s].owner, args.w = sinfo[args.s].home, args.tok,
                SessClass(args.s), lock[args.s] # 0,
-               IF "script" \in DOMAIN args THEN args.script ELSE <<>> >>
+               IF "script" \in DOMAIN args THEN args.script ELSE <<>>,
+               IF "route" \in DOMAIN args THEN args.route ELSE "-" >>
       [] "accept" \in DOMAIN args ->
             << draining[args.w], args.w \in SealFails, args.script, args.accept >>
       [] "lag" \in DOMAIN args ->
@@ -222,7 +236,7 @@ StartPlain(t, p, w, script, ttl, acc) ==
     /\ CanStart /\ Pick(t) /\ cnt.req < MaxReq
     /\ Cardinality(FreeSlots) > Cardinality(OpenersInFlight)
     /\ pc' = [pc EXCEPT ![t] = "inh"]
-    /\ rq' = [rq EXCEPT ![t] = [NoReq EXCEPT !.kind = "plain", !.prin = p, !.w = w, !.ops = ScriptOps(script),
+    /\ rq' = [rq EXCEPT ![t] = [NoReq EXCEPT !.kind = "plain", !.route = "unary", !.prin = p, !.w = w, !.ops = ScriptOps(script),
                                               !.ttl = ttl, !.accept = acc]]
     /\ cnt' = [cnt EXCEPT !.req = @ + 1]
     /\ UNCHANGED <<reg, sinfo, closed, lock, pending, draining, down, now, op>>
@@ -232,31 +246,35 @@ StartPlain(t, p, w, script, ttl, acc) ==
 (* Requests carrying VGI-Session: token of slot s as issued ("own") or altered. *)
 \* openSessionToken fails (alteration, or AAD of another identity): session_lost, no shared state
 \* touched (pure: these requests do not even consume the request budget)
-Resume_TokenFail(t, s, p, w, tok, script) ==
+Resume_TokenFail(t, s, p, w, tok, script, route) ==
+    /\ RouteOK(route, script)
     /\ CanStart /\ Pick(t) /\ cnt.req < MaxReq /\ sinfo[s].pub
     /\ TokenFails(s, p, tok)
     /\ UNCHANGED <<reg, sinfo, closed, lock, pending, draining, down, now, pc, rq, op, cnt>>
-    /\ St("Resume_TokenFail", t, [s |-> s, prin |-> p, w |-> w, tok |-> tok, script |-> ScriptOps(script)],
+    /\ St("Resume_TokenFail", t, [s |-> s, prin |-> p, w |-> w, tok |-> tok, route |-> route, script |-> RouteOps(route, script)],
           [lost |-> TRUE, res |-> "lost"])
 
 \* token opens, but it names another worker's server id
-Resume_WrongWorker(t, s, p, w, tok, script) ==
+Resume_WrongWorker(t, s, p, w, tok, script, route) ==
+    /\ RouteOK(route, script)
     /\ CanStart /\ Pick(t) /\ cnt.req < MaxReq /\ sinfo[s].pub
     /\ TokenOpens(s, p, tok) /\ w # sinfo[s].home
     /\ UNCHANGED <<reg, sinfo, closed, lock, pending, draining, down, now, pc, rq, op, cnt>>
-    /\ St("Resume_WrongWorker", t, [s |-> s, prin |-> p, w |-> w, tok |-> tok, script |-> ScriptOps(script)],
+    /\ St("Resume_WrongWorker", t, [s |-> s, prin |-> p, w |-> w, tok |-> tok, route |-> route, script |-> RouteOps(route, script)],
           [lost |-> TRUE, res |-> "lost"])
 
-Resume_TokenOK(t, s, p, w, tok, script) ==
+Resume_TokenOK(t, s, p, w, tok, script, route) ==
+    /\ RouteOK(route, script)
     /\ CanStart /\ Pick(t) /\ cnt.req < MaxReq /\ sinfo[s].pub
     /\ TokenOpens(s, p, tok) /\ WorkerOK(s, w)
-    /\ Cardinality(FreeSlots) > Cardinality(OpenersInFlight) \/ ~\E i \in 1..Len(ScriptOps(script)) : ScriptOps(script)[i] = "open"
+    /\ Cardinality(FreeSlots) > Cardinality(OpenersInFlight) \/ ~\E i \in 1..Len(ScriptOps(script)) : ScriptOps(script)[i] = "open" \/ route \notin {"unary", "pinit"}
     /\ pc' = [pc EXCEPT ![t] = "get"]
-    /\ rq' = [rq EXCEPT ![t] = [NoReq EXCEPT !.kind = "resume", !.s = s, !.prin = p, !.w = w, !.tok = tok,
-                                              !.ops = ScriptOps(script), !.ttl = 1, !.accept = TRUE]]
+    /\ rq' = [rq EXCEPT ![t] = [NoReq EXCEPT !.kind = "resume", !.route = route, !.s = s, !.prin = p, !.w = w,
+                                              !.tok = tok, !.ops = RouteOps(route, script), !.ttl = 1,
+                                              !.accept = TRUE]]
     /\ cnt' = [cnt EXCEPT !.req = @ + 1]
     /\ UNCHANGED <<reg, sinfo, closed, lock, pending, draining, down, now, op>>
-    /\ St("Resume_TokenOK", t, [s |-> s, prin |-> p, w |-> w, tok |-> tok, script |-> ScriptOps(script)],
+    /\ St("Resume_TokenOK", t, [s |-> s, prin |-> p, w |-> w, tok |-> tok, route |-> route, script |-> RouteOps(route, script)],
           [lost |-> FALSE])
 
 Delete_TokenFail(t, s, p, w, tok) ==
@@ -329,13 +347,17 @@ EntryLock(t) ==
     /\ (Det /\ pc[t] = "prelock") => (Settled /\ ~\E u \in Thr : pc[u] = "lockwait" /\ rq[u].ent = s)
     /\ lock' = [lock EXCEPT ![s] = t]
     /\ IF rq[t].kind = "resume"
-       THEN /\ pc' = [pc EXCEPT ![t] = "inh"]                       \* installResumed, then the handler
+       THEN \* installResumed, then the init handler — or, on a continuation / exchange turn, framework
+            \* code up to the Produce / Exchange call ("locked": lock held, no user code running yet)
+            /\ pc' = [pc EXCEPT ![t] = IF rq[t].route \in {"unary", "pinit"} THEN "inh" ELSE "locked"]
             /\ rq' = [rq EXCEPT ![t].lk = s, ![t].bound = s]
        ELSE /\ pc' = [pc EXCEPT ![t] = "dlocked"]
             /\ rq' = [rq EXCEPT ![t].lk = s]
     /\ UNCHANGED <<reg, sinfo, closed, pending, draining, down, now, op, cnt>>
     /\ St(IF pc[t] = "lockwait" THEN "EntryLock_Wake" ELSE "EntryLock", t, [s |-> s],
-          [blocked |-> FALSE, saw |-> IF rq[t].kind = "resume" THEN s ELSE 0])
+          [blocked |-> FALSE,
+           \* what the init handler sees on entry; a continuation / exchange turn has no init handler
+           saw |-> IF rq[t].kind = "resume" /\ rq[t].route \in {"unary", "pinit"} THEN s ELSE 0])
 
 \* Lock() called while another request holds the session: the caller blocks
 EntryLock_Wait(t) ==
@@ -418,6 +440,15 @@ Seal_Fail_Miss(t) ==
     /\ rq' = [rq EXCEPT ![t].ops = <<>>, ![t].err = "sealfail", ![t].cur = 0]
     /\ UNCHANGED <<reg, sinfo, closed, lock, pending, draining, down, now, op, cnt>>
     /\ St("Seal_Fail_Miss", t, [s |-> s], [err |-> "sealfail"])
+
+\* one Produce / Exchange call of the stream state: user code that reads ctx.Session()
+H_Tick(t) ==
+    /\ CanStep /\ pc[t] \in {"inh", "locked"} /\ NextOp(t) = "tick"
+    /\ rq' = [rq EXCEPT ![t].ops = Pop(t)]
+    /\ pc' = [pc EXCEPT ![t] = "inh"]
+    /\ UNCHANGED <<reg, sinfo, closed, lock, pending, draining, down, now, op, cnt>>
+    /\ St("H_Tick", t, [route |-> rq[t].route],
+          [saw |-> IF rq[t].bound # 0 /\ ~rq[t].sclosed THEN rq[t].bound ELSE 0])
 
 \* ctx.CloseSession: no session bound to this request
 H_Close_Unbound(t) ==
@@ -595,10 +626,10 @@ Init ==
 ThreadNext(t) ==
     \/ \E p \in Prin, w \in Worker, sc \in OpenScripts, ttl \in TTLs, acc \in BOOLEAN :
             StartPlain(t, p, w, sc, ttl, acc)
-    \/ \E s \in Sess, p \in Prin, w \in Worker, tok \in Toks, sc \in ResumeScripts :
-            \/ Resume_TokenFail(t, s, p, w, tok, sc)
-            \/ Resume_WrongWorker(t, s, p, w, tok, sc)
-            \/ Resume_TokenOK(t, s, p, w, tok, sc)
+    \/ \E s \in Sess, p \in Prin, w \in Worker, tok \in Toks, sc \in ResumeScripts, ro \in Routes :
+            \/ Resume_TokenFail(t, s, p, w, tok, sc, ro)
+            \/ Resume_WrongWorker(t, s, p, w, tok, sc, ro)
+            \/ Resume_TokenOK(t, s, p, w, tok, sc, ro)
     \/ \E s \in Sess, p \in Prin, w \in Worker, tok \in Toks :
             \/ Delete_TokenFail(t, s, p, w, tok)
             \/ Delete_TokenOK(t, s, p, w, tok)
@@ -606,6 +637,7 @@ ThreadNext(t) ==
     \/ EntryLock(t) \/ EntryLock_Wait(t)
     \/ Open_Guard(t) \/ Open_Draining(t) \/ Open_OK(t)
     \/ Seal_OK(t) \/ Seal_Fail_Hit(t) \/ Rollback_RunClose(t) \/ Seal_Fail_Miss(t)
+    \/ H_Tick(t)
     \/ H_Close_Unbound(t) \/ H_Close_Hit(t) \/ H_RunClose(t) \/ H_Close_Miss(t)
     \/ Finish(t)
     \/ Del_Close_Hit(t) \/ Del_RunClose(t) \/ Del_Close_Miss(t) \/ Del_Finish(t)
@@ -653,7 +685,7 @@ NoLockLeak == AtRest => \A s \in Sess : lock[s] = 0
 LockHolderSane ==
     \A s \in Sess : lock[s] # 0 =>
         /\ rq[lock[s]].lk = s
-        /\ pc[lock[s]] \in HPcs \cup {"dlocked", "dclosing", "dunlock"}
+        /\ pc[lock[s]] \in HPcs \cup {"locked", "dlocked", "dclosing", "dunlock"}
 
 \* a session resolves only for the caller that opened it, on the worker that opened it,
 \* with the token as issued
@@ -681,7 +713,7 @@ TypeOK ==
     /\ \A s \in Sess : lock[s] \in 0..NThr /\ pending[s] \in 0..OP /\ closed[s] \in Nat
     /\ now \in 0..MaxNow
     /\ \A t \in Thr : pc[t] \in {"idle", "get", "evict", "prelock", "lockwait", "inh", "hclosing",
-                                 "sealing", "rollback", "dlocked", "dclosing", "dunlock"}
+                                 "sealing", "rollback", "locked", "dlocked", "dclosing", "dunlock"}
 
 \* NOT claimed by C29 and NOT true of the code (see report): user code of a resumed request
 \* can start after the session's Close ran (get hit, then close/expiry, then Lock succeeds)
